@@ -32,6 +32,11 @@ type scenario struct {
 	HotLimit   int32
 	CloseAfter int // close the DB after this many completed writes (0 = after all)
 	Txn        bool
+	// DelayEnqueue: once the Close is near, writers pause for 1-4 ms at the yield
+	// sites around the commit-queue push (between the closed check / ring push and
+	// the queue-length increment), so Close and the commit worker run while
+	// accepted requests are still on their way into the queue.
+	DelayEnqueue bool
 }
 
 var scenarios = []scenario{
@@ -41,6 +46,8 @@ var scenarios = []scenario{
 	{Name: "close-mid-stream", Writers: 400, OpsPerW: 20, L0Tables: 2, MemTable: 16 << 10, CloseAfter: 1500},
 	{Name: "txn-commit-throttle", Writers: 64, OpsPerW: 40, L0Tables: 1, MemTable: 8 << 10, Txn: true},
 	{Name: "txn-close-mid-stream", Writers: 200, OpsPerW: 20, L0Tables: 2, MemTable: 16 << 10, CloseAfter: 1000, Txn: true},
+	{Name: "close-vs-delayed-enqueue", Writers: 200, OpsPerW: 20, L0Tables: 4, MemTable: 64 << 10, CloseAfter: 1200, DelayEnqueue: true},
+	{Name: "txn-close-vs-delayed-enqueue", Writers: 100, OpsPerW: 20, L0Tables: 4, MemTable: 64 << 10, CloseAfter: 600, Txn: true, DelayEnqueue: true},
 }
 
 const (
@@ -102,6 +109,27 @@ func run(c *core.Case) {
 	}
 	var wg sync.WaitGroup
 	var writesDone atomic.Int64
+	if sc.DelayEnqueue {
+		var tick, delayed atomic.Int64
+		utils.VerifSetYield(func(site string) {
+			if site != "cq.enqueue.before-push" && site != "cq.enqueue.after-push" {
+				return
+			}
+			if writesDone.Load() < int64(sc.CloseAfter)-int64(sc.Writers)/2 {
+				return
+			}
+			n := tick.Add(1)
+			if n%3 == 0 {
+				return
+			}
+			delayed.Add(1)
+			time.Sleep(time.Duration(1+n%4) * time.Millisecond)
+		})
+		defer func() {
+			utils.VerifSetYield(nil)
+			c.Count("enqueue_delays."+sc.Name, int(delayed.Load()))
+		}()
+	}
 	closed := make(chan struct{})
 	var closeOnce sync.Once
 	doClose := func() {
@@ -269,7 +297,7 @@ func init() {
 		ID:    "C37",
 		Level: "exploration",
 		Race:  false,
-		Rule: "case = one stress scenario {commit-queue saturation with 1500 writers, L0 throttle toggling (NumLevelZeroTables=1, 8KiB memtable), hot-key throttling, Close in mid-stream, transactional commits under throttling, transactional Close in mid-stream} x memtable engine; every Set/Del/Get/iterator/commit/Close call and calls issued after Close must return; " +
+		Rule: "case = one stress scenario {commit-queue saturation with 1500 writers, L0 throttle toggling (NumLevelZeroTables=1, 8KiB memtable), hot-key throttling, Close in mid-stream, transactional commits under throttling, transactional Close in mid-stream, Close against writers delayed 1-4 ms at the yield sites around the commit-queue push (plain and transactional)} x memtable engine; every Set/Del/Get/iterator/commit/Close call and calls issued after Close must return; " +
 			"verdict: all calls returned (outcome classes counted) = held; still running after 150s but other calls keep completing = inconclusive; still running and nothing completes during a further 180s window (no call completes, no compaction run, no layout change, flush queue unchanged) = violation; distinct = (scenario, engine, case)",
 		Assumptions:      []string{"liveness is restated as bounded progress: an unbounded 'eventually' cannot be decided by a finite run", "a recovered panic counts as 'returned' (the statement is about termination); process-fatal errors are violations"},
 		CrashIsViolation: true,
